@@ -689,6 +689,75 @@ fn check_version_kind(input: &str, e: &SemverError, sink: &Sink) {
     }
 }
 
+/// C17 kind rule, prefix form: if the text up to the first oversized major/minor/patch component
+/// is something the crate's parser gets through (shown by completing that prefix with small
+/// numbers and seeing it accepted), the error must be MaxIntError(value) / ParseIntError at the
+/// start of that component — whatever follows it.
+fn check_version_kind_prefix(input: &str, e: &SemverError, sink: &Sink) {
+    if input.len() > MAX_LENGTH {
+        return;
+    }
+    let b = input.as_bytes();
+    let mut i = 0;
+    while i < b.len() && !b[i].is_ascii_digit() {
+        i += 1;
+        if i > 4 {
+            return; // at most blanks / v / blanks before the core
+        }
+    }
+    let head = &input[..i];
+    let mut pos = i;
+    for k in 0..3 {
+        let st = pos;
+        while pos < b.len() && b[pos].is_ascii_digit() {
+            pos += 1;
+        }
+        if pos == st {
+            return;
+        }
+        let digits = &input[st..pos];
+        let val = digits.parse::<u128>().ok();
+        let oversized = val.map(|v| v > MAX_SAFE as u128).unwrap_or(true);
+        if oversized {
+            // does the crate reach this component?
+            let mut completion = String::from(head);
+            completion.push_str(&input[i..st]);
+            completion.push('1');
+            for _ in k + 1..3 {
+                completion.push_str(".1");
+            }
+            if !matches!(guarded(|| Version::parse(&completion)), Ok(Ok(_))) {
+                return;
+            }
+            let case = || json!({"engine":"B","kind":"error","parser":"version","input":input,"render":false});
+            let key = format!("parser=version|input={:?}|prefix", input);
+            match val {
+                Some(v) if v <= u64::MAX as u128 => {
+                    if !matches!(e.kind(), SemverErrorKind::MaxIntError(n) if *n as u128 == v) {
+                        sink.report("kind-maxint", key.clone(), case(), format!("{:?}", e.kind()), format!("MaxIntError({})", v));
+                    }
+                    if e.input() == input && e.offset() != st {
+                        sink.report("kind-maxint", format!("{}|offset", key), case(), format!("offset {}", e.offset()), format!("{} (start of the component)", st));
+                    }
+                }
+                _ => {
+                    if !matches!(e.kind(), SemverErrorKind::ParseIntError(_)) {
+                        sink.report("kind-parseint", key, case(), format!("{:?}", e.kind()), "ParseIntError".into());
+                    }
+                }
+            }
+            return;
+        }
+        if k < 2 {
+            if pos < b.len() && b[pos] == b'.' {
+                pos += 1;
+            } else {
+                return;
+            }
+        }
+    }
+}
+
 pub fn multiline_family() -> Vec<String> {
     let mut out = vec![];
     for seed in ["1.2.3", "1.2", "x", "1.2.3-a", "é1.2.3", "1.2.é", ">=1.2.3 <2", "foo", "900719925474100.0.0", "1.900719925474100.0", "1.2.900719925474100"] {
@@ -740,6 +809,7 @@ pub fn run_c17(tier: &str, sink: &Sink) -> BOut {
             let render = s.chars().count() + 2 <= nv || shapes.lock().unwrap().insert(shape);
             check_error("version", s, &e, render, sink, &c);
             check_version_kind(s, &e, sink);
+            check_version_kind_prefix(s, &e, sink);
         }
     };
     let on_r = |s: &str| {
@@ -767,6 +837,16 @@ pub fn run_c17(tier: &str, sink: &Sink) -> BOut {
     for s in multiline_family() {
         on_v(&s);
         on_r(&s);
+    }
+    // oversized components in incomplete / malformed cores
+    for big in ["900719925474100", "18446744073709551615", "18446744073709551616", "99999999999999999999", "0900719925474100"] {
+        for pre in ["", "v", "v ", " ", "1.", "1.2.", "v1.", "01.02."] {
+            for post in ["", ".", ".2", ".2.", ".x", ".2.x", "-a", " ", ".2.3.4", "..", ".2.3-", "a"] {
+                let s = format!("{}{}{}", pre, big, post);
+                on_v(&s);
+                on_r(&s);
+            }
+        }
     }
     for s in long_multiline_family() {
         on_v(&s);
@@ -914,6 +994,7 @@ pub fn replay(prop: &str, case: &Value, sink: &Sink) {
                     check_error("version", input, &e, render, sink, &c);
                     check_error("version", input, &e, true, sink, &c);
                     check_version_kind(input, &e, sink);
+                    check_version_kind_prefix(input, &e, sink);
                 }
             } else if let Ok(Err(e)) = guarded(|| Range::parse(input)) {
                 check_error("range", input, &e, render, sink, &c);
